@@ -36,6 +36,19 @@ func TestMain(m *testing.M) {
 	openapi3.DefineIPv4Format()
 	openapi3.DefineIPv6Format()
 	openapi3.DefineStringFormatValidator("email", openapi3.NewRegexpFormatValidator(openapi3.FormatOfStringForEmail))
+	// a format composed by a user from the library's own validators, which hands their schema errors on
+	// wrapped (the usual fmt.Errorf("...: %w", err))
+	v4, v6 := openapi3.NewIPValidator(true), openapi3.NewIPValidator(false)
+	openapi3.DefineStringFormatValidator("x-wrapped-ip", openapi3.NewCallbackValidator(func(s string) error {
+		err4 := v4.Validate(s)
+		if err4 == nil {
+			return nil
+		}
+		if err6 := v6.Validate(s); err6 == nil {
+			return nil
+		}
+		return fmt.Errorf("neither an IPv4 nor an IPv6 address: %w", err4)
+	}))
 	if noDetails {
 		openapi3.SchemaErrorDetailsDisabled = true
 	}
